@@ -17,7 +17,7 @@ def main():
     if not os.path.isdir(WT):
         rc, out = sh("git -C /repo worktree add --detach %s HEAD" % WT)
         if rc: print(out); return 2
-    sh("git checkout -q --detach $(git -C /repo rev-parse HEAD) && git checkout -- . && git clean -fdq", cwd=WT)
+    sh("git reset -q --hard && git checkout -q --detach $(git -C /repo rev-parse HEAD) && git reset -q --hard && git clean -fdq", cwd=WT)
     res = {"repo_head": sh("git -C /repo rev-parse --short HEAD")[1].strip()}
     rc, out = sh("git apply %s" % os.path.join(d, "patch.diff"), cwd=WT)
     if rc:
@@ -53,7 +53,7 @@ def main():
     res["demo_with_patch_exit"] = rc1
     res["demo_with_patch_tail"] = out1[-400:]
     # revert the source change only (keep the demo)
-    sh("git checkout -- .", cwd=WT)
+    sh("git reset -q --hard", cwd=WT)
     rc3, out3 = sh(cmd, cwd=WT)
     res["demo_without_patch_exit"] = rc3
     os.remove(path)
